@@ -68,6 +68,15 @@ def run(tier, seed):
             tg = chaingen.TreeGen(env, keys, rng)
             small = (trial % 2 == 0)
             tg.grow(5 if small else (rng.choice([9, 12]) if tier == 'quick' else rng.choice([12, 18, 25])), fork_p=0.4)
+            # a reward with a zero-valued second output to a key whose positive outputs are then ALL spent: that key's
+            # balance is 0 while it still owns an unspent (zero-valued) output
+            tipz = max(tg.nodes, key=lambda x: x.height)
+            kz = keys.pks[4]
+            bz = tg.extend(tipz, txs=[], fees=0, miner=kz, zero_outputs=[kz])
+            pos = [(ref, vo) for ref, vo in bz.utxo.items() if vo[1] == kz and vo[0] > 0]
+            if pos:
+                tz = chaingen.signed_tx(keys, bz.utxo, [r_ for r_, _ in pos], [(sum(vo[0] for _, vo in pos), keys.pks[1])])
+                tg.extend(bz, txs=[tz], fees=0, miner=keys.pks[2])
             nodes = tg.nodes
             if small:
                 orders = all_orders(nodes, 200 if tier == 'quick' else 2000)
@@ -127,6 +136,46 @@ def run(tier, seed):
                         if pk not in got_b:
                             ck.violation('balance-missing-key', 'a key with unspent outputs has no balance entry',
                                          dict(rp, block=bytes(h).hex(), key=pk.hex()))
+                            break
+                # a balance lookup that is interrupted (an exception escapes from inside the replay, as MemoryError or
+                # KeyboardInterrupt can) must not poison later lookups on the same object: the answer for a block is a
+                # function of that block's chain
+                if oi == 0:
+                    from skepticoin import balances as BAL
+                    fresh = CoinState.empty()
+                    for n_ in order:
+                        fresh = fresh.add_block_no_validation(n_.block)
+                    target_h = fresh.current_chain_hash
+                    for fname in ('pkb_apply_block', 'uto_apply_block'):
+                        if not hasattr(BAL, fname):
+                            continue
+                        orig_f = getattr(BAL, fname)
+                        calls = [0]
+
+                        def boom(*a, _o=orig_f, **kw):
+                            calls[0] += 1
+                            if calls[0] == 2:
+                                raise MemoryError('injected')
+                            return _o(*a, **kw)
+                        setattr(BAL, fname, boom)
+                        try:
+                            try:
+                                fresh.public_key_balances_by_hash[target_h]
+                                interrupted = False
+                            except MemoryError:
+                                interrupted = True
+                        finally:
+                            setattr(BAL, fname, orig_f)
+                        if interrupted:
+                            ck.count('balance-lookup-interrupted-then-repeated')
+                            got_again = impl_balances(fresh, target_h)
+                            want_again = spec.balances(byid[bytes(target_h)].utxo)
+                            if {k: (v, sorted(r_)) for k, (v, r_) in got_again.items() if r_ or v} != \
+                                    {k: (v, sorted(r_)) for k, (v, r_) in want_again.items()}:
+                                ck.violation('balance-after-interrupted-lookup', 'after a balance lookup was interrupted by an '
+                                             'exception inside the replay, the next lookup for the same block reports %d keys, '
+                                             'the replay of its chain has %d' % (len(got_again), len(want_again)),
+                                             dict(rp, block=bytes(target_h).hex(), interrupted_in=fname))
                             break
                 # wallet balance at head
                 w = Wallet({pk: b'' for pk in keys.pks}, list(keys.pks[:3]), {pk: 'x' for pk in keys.pks[3:]})
